@@ -3,7 +3,7 @@ import random
 import numpy as np
 from bounded.common import quiet
 from bounded import geo
-from bounded.C01 import make_case, run_find, specs as c01_specs
+from bounded.C01 import make_case, search, specs as c01_specs
 
 
 def expected_groups(case):
@@ -18,7 +18,7 @@ def check_case(spec):
     case = make_case(spec)
     atol = spec.get('atol', 0.05)
     try:
-        idxs, poss, quats = run_find(case, atol, spec.get('hints'), spec.get('rng', 0))
+        idxs, poss, quats = search(case, spec)
     except Exception as e:
         return "find_pattern_in_structure raised %r" % (e,), 0
     found = [geo.group_key(m) for m in idxs]
